@@ -8,7 +8,7 @@ from harness import pyrun
 
 DISC_SRC = '''
 from dataclasses import dataclass, field
-from typing import Annotated, Union, Optional, List
+from typing import Annotated, Union, Optional, List, Literal
 from apischema import discriminator, alias
 
 @dataclass
@@ -29,6 +29,16 @@ class T:                      # declares the discriminator property as a field
 class Slow:                   # not eligible to the simple-object fast path (alias != name)
     s: int = field(default=0, metadata=alias("S"))
 
+@dataclass
+class Cat:                    # several tags for one class, held by the discriminator field itself
+    type: Literal["cat", "kitten"]
+    lives: int = 9
+
+@dataclass
+class Dog:
+    type: Literal["dog"]
+
+Pet = Annotated[Union[Cat, Dog], discriminator("type")]
 U = Annotated[Union[A, B], discriminator("type")]
 U3 = Annotated[Union[A, B, T, Slow], discriminator("type", {"a": A, "b": B, "t": T, "slow": Slow})]
 
@@ -58,6 +68,7 @@ def discriminator_cases(mod):
     return [
         (U, {"type": "A", "a": 1}), (U, {"type": "B", "b": "x"}), (U, {"type": "B", "b": "x", "c": True}),
         (U3, {"type": "a", "a": 2}), (U3, {"type": "t", "n": 3}), (U3, {"type": "slow", "S": 4}), (U3, {"type": "b", "b": ""}),
+        (mod.Pet, {"type": "cat"}), (mod.Pet, {"type": "kitten", "lives": 3}), (mod.Pet, {"type": "dog"}), (mod.Pet, {"type": "puppy"}),
         (Base, {"kind": "X", "x": 1}), (Base, {"kind": "Y"}), (Union[mod.X, mod.Y], {"kind": "Y", "y": "q"}),
         (Holder, {"u": {"type": "A", "a": 1}, "items": [{"type": "t", "n": 1}, {"type": "a", "a": 0}], "base": {"kind": "X", "x": 5}}),
         # invalid data
